@@ -92,6 +92,7 @@ func check(id string, args []string) (code int) {
 		}
 	}()
 	p.Build(c)
+	c.ScopeProblems()
 	known, err := report.LoadKnown(filepath.Join(report.VerifDir(), "known_findings.json"))
 	if err != nil {
 		c.Set.Problem("known_findings.json: %v", err)
